@@ -2,6 +2,7 @@
 package c06
 
 import (
+	"reflect"
 	"strings"
 
 	"github.com/bmeg/grip/gdbi"
@@ -265,4 +266,27 @@ func BadIfaceEqual(a, b *structpb.Value) bool {
 // OkIfaceNil compares a request-JSON value with nil only.
 func OkIfaceNil(a *structpb.Value) bool {
 	return a.AsInterface() == nil
+}
+
+// OkMapKeyFiltered counts request values by kind-checked key.
+func OkMapKeyFiltered(v *structpb.Value) int {
+	counts := map[interface{}]int{}
+	val := v.AsInterface()
+	if val != nil {
+		k := reflect.TypeOf(val).Kind()
+		if k != reflect.Array && k != reflect.Slice && k != reflect.Map {
+			counts[val]++
+		}
+	}
+	return len(counts)
+}
+
+// BadMapKeyObject lets an object-valued request value become a map key.
+func BadMapKeyObject(v *structpb.Value) int {
+	counts := map[interface{}]int{}
+	val := v.AsInterface()
+	if _, isList := val.([]interface{}); !isList && val != nil {
+		counts[val]++
+	}
+	return len(counts)
 }
